@@ -1,7 +1,7 @@
 (* C07 — Finalizer ordering safety in controller-driven lifecycles. Statements only.
    Machine: GenCtl.q_step (qtransform.QController.Reconcile as a sequence of runtime-API calls, each executed
    atomically by Access.a_apply; any store operation of any other party between any two calls). *)
-From Verif Require Import Store Helpers DepDB Access GenCtl GenCtlProofs Cleanup CleanupProofs Transform TransformProofs Destroy DestroyProofs TransformList TransformListProofs.
+From Verif Require Import Store Helpers DepDB Access GenCtl GenCtlProofs Cleanup CleanupProofs Transform TransformProofs Destroy DestroyProofs TransformList TransformListProofs CleanupRO CleanupROProofs.
 Open Scope N_scope.
 
 (* for every schedule of worker calls, transform faults, restarts and environment operations that respect
@@ -141,3 +141,22 @@ Theorem C07_transform_any_mapping_teardown_only_unwanted : forall ns tin tout cn
   LTd cname s -> LTd cname (l_run ns tin tout cname tf mapf s l).
 Proof. exact l_teardown_only_unwanted. Qed.
 Print Assumptions C07_transform_any_mapping_teardown_only_unwanted.
+
+(* third clause for cleanup.Controller with the RemoveOutputs handler (CleanupRO.v: list the dependents, skip owned ones,
+   Teardown and Destroy the unowned ones with the empty owner, wait while any is still tearing down): for every schedule of
+   runtime calls, restarts and operations of other parties - provided that, between the handler's listing and the end of
+   that pass, no new unowned dependent of the input appears - RemoveFinalizer is issued on the torn-down input only while
+   no unowned dependent exists (owned dependents are skipped by the handler by design and are their owner's to remove);
+   the release touches no dependent *)
+Theorem C07_cleanup_remove_outputs_release_only_without_dependents : forall ns tin tout cname lkey x l,
+  r_env_respects ns tin tout cname lkey x (mkRS [] R0) l ->
+  let s := ro_run ns tin tout cname lkey x (mkRS [] R0) l in
+  rs_pc s = RRemFin -> forall id, ~ udep ns tout lkey x id (rs_store s).
+Proof. exact ro_release_only_without_unowned_dependents. Qed.
+Print Assumptions C07_cleanup_remove_outputs_release_only_without_dependents.
+
+Theorem C07_cleanup_remove_outputs_release_touches_only_input : forall ns tin tout cname, tin <> tout -> forall now x st st' r id,
+  a_apply now (rctrl ns tin tout cname) (ARemFin (ns, tin, x) [cname]) st = (st', r) ->
+  st_get (ns, tout, id) st' = st_get (ns, tout, id) st.
+Proof. exact ro_release_touches_only_input. Qed.
+Print Assumptions C07_cleanup_remove_outputs_release_touches_only_input.
